@@ -14,6 +14,7 @@ try:
     from ipv8.messaging.anonymization.crypto import PythonCryptoEndpoint, CryptoException  # noqa: F401
     from ipv8.messaging.anonymization.payload import CellPayload  # noqa: F401
     from ipv8.messaging.anonymization.tunnel import Hop  # noqa: F401
+    from ipv8.messaging.serialization import default_serializer  # noqa: F401
 except ImportError:
     pass
 
@@ -187,3 +188,23 @@ contract(f"{CR}::PythonCryptoEndpoint.outgoing_crypto", "outgoing_crypto.e2e-lay
          requires=["cell.circuit_id == circ.circuit_id"], call="self.outgoing_crypto(cell)", raises=[],
          ensures=[f"result is cell and cell.message == E(hc1, FORWARD, uf_bytes('aead_enc', hs.kid, {_DOUT}, m0))"],
          note="data for an e2e circuit is first sealed for the other end point, then wrapped for the hops")
+
+# ---------------------------------------------------------------------------------------------------------------------
+# delivery at the end point: what arrives over an END-TO-END circuit is application data for the hidden-service layer, whatever it looks
+# like - it is handed to on_raw_data unchanged and attributed to its origin, never interpreted as an IPv8 control packet
+DATAP = OBJ(f"{PL}::DataPayload", circuit_id=RANGE(0, 2 ** 32 - 1), dest_address=ADDRESS, org_address=ADDRESS, data=BYTES)
+contract(f"{TC}::TunnelCommunity.on_data", "on_data.e2e-data-goes-to-the-application",
+         vars={"hc1": HOP(), "circ": CIRCUIT("[hc1]", ctype=STR, e2e=BOOL), "PAYLOAD": DATAP, "sock": ADDRESS, "data": BYTES,
+               "self": OBJ(f"{TC}::TunnelCommunity", logger=LOGGER(), _prefix=BYTES_FIXED(22), circuits=EXPR("{circ.circuit_id: circ}"),
+                           serializer=EXPR("default_serializer"), endpoint=EFFECT("endpoint", notify_listeners={}),
+                           on_raw_data=CALLABLE("on_raw_data", raises=()), on_packet_from_circuit=CALLABLE("on_packet_from_circuit", raises=()),
+                           exit_data=CALLABLE("exit_data", raises=()))},
+         requires=["circ.ctype == CIRCUIT_TYPE_RP_DOWNLOADER or circ.ctype == CIRCUIT_TYPE_RP_SEEDER",
+                   "PAYLOAD.circuit_id == circ.circuit_id", "sock == hc1.peer._address"],
+         call="self.on_data(sock, data, None)", raises=[],
+         stubs={"ipv8/messaging/serialization.py::Serializer.unpack_serializable": {"returns": "(PAYLOAD, 0)", "note": "decoding (C02/C03)"}},
+         on_effect={"on_raw_data": ["args[0] is circ", "args[1] == PAYLOAD.org_address", "args[2] == PAYLOAD.data"]},
+         ensures=["len(calls('on_raw_data')) == 1", "len(calls('on_packet_from_circuit')) == 0", "len(calls('endpoint.notify_listeners')) == 0",
+                  "len(calls('exit_data')) == 0"],
+         note="both directions of a linked hidden-service circuit (seeder and downloader side), whether or not the e2e flag is set on "
+              "the circuit object and whatever the payload's first bytes are")
